@@ -6,7 +6,7 @@ sub=sys.argv[1] if len(sys.argv)>1 else ''
 noise=re.compile(r'removed: (dl|[a-z.]*[Ll]og|[a-zA-Z.]*Task|region|c\.c\.log|cr\.log|dd\.log|s\.log|q\.Log|endp\.Log|rd\.Log|trace)\b|\.Debug|\.End\(\)|Inc\(\)|Observe\(|removed: defer trace|removed: defer [a-zA-Z]*Task')
 by=collections.defaultdict(list)
 for m in d:
-    if m['verdict']=='survived' and sub in m['func'] and not noise.search(m['desc']):
+    if m['verdict']=='survived' and m.get('tests','pass')=='pass' and sub in m['func'] and not noise.search(m['desc']):
         by[m['func']].append(m)
 tot=collections.Counter(m['verdict'] for m in d)
 print(dict(tot))
